@@ -40,11 +40,11 @@ var properties = []Property{
 	P("C02", "ASN.1 tag/shape comparison of the marshalled struct types with RFC 5280, constant evaluation, SSA value-identity and guard analysis",
 		"the shape (field order, universal types, tags, EXPLICIT/OPTIONAL/DEFAULT) of the certificate types handed to encoding/asn1; the serial bound (<= 2^159) and version constant; that both signature AlgorithmIdentifiers get one Parameters value that is NULL exactly for RSA; UTC conversion of the validity; the SubjectPublicKeyInfo identifiers. Also: bytes emitted verbatim (RawValue.FullBytes, RawContent) always come from an encoder; bytes handed on from a reused buffer are not overwritten before they are encoded. Also: a RawValue with a universal tag has the constructed bit DER prescribes (set for SEQUENCE/SET); a BIT STRING length computed from a length is 8 times the length of the bytes stored beside it. Also: no encoder error is dropped on the way to an extension value (a value that could not be encoded is not written as an empty one). Also: the bytes of a general name are the encoder's output, not a hand-written tag and length.",
 		"DER minimality of lengths/integers/times (encoding/asn1 is trusted for the shape it is given), the 'independent parser reads the same fields' clause, byte-exact round trips, the UTCTime/GeneralizedTime choice.",
-		"ASN1-CERT", "TAB-SERIAL", "SIGALG-PARAMS", "PROV-VALIDITY", "TAB-ALGOID", "TAB-SIGALG", "TBS-WRITERS", "DER-RAW", "LINT-REUSE", "ASN1-RAWSEQ", "BITSTRING-LEN", "SIGNED-BODY", "LINT-NARROW", "ERR-DROP"),
+		"ASN1-CERT", "TAB-SERIAL", "SIGALG-PARAMS", "PROV-VALIDITY", "TAB-ALGOID", "TAB-SIGALG", "TBS-WRITERS", "DER-RAW", "LINT-REUSE", "ASN1-RAWSEQ", "BITSTRING-LEN", "SIGNED-BODY", "LINT-NARROW", "ERR-DROP", "NAMED-BITS", "LIVE-DEP"),
 	P("C03", "caller-memory purity analysis over SSA with module callees followed, access-path provenance, table and schema comparison",
 		"that validating against a profile cannot change the subject (no write to caller memory on any path); that subject, serial and unique ids reach the certificate from the like-named configuration and YAML fields without cross-wiring, the configured serial only when non-zero; the attribute short-name table; schema/struct agreement. Also: between the subject string and an attribute value only text-preserving operations occur (split, trim at the ends, hex decoding). Also: the unique ids' bit lengths are 8 times their byte counts; their presence tests are emptiness tests. Also: the configuration structs are decoded from the text of the document (or its YAML-to-JSON conversion), never from a re-encoded generic map, so a serial number stays the integer that was written. Also: attribute values are handed to the encoder as strings or byte strings, never as a pre-chosen string type; the loop that fills the RDN list stores an element on every way round. Also: text is copied as text, not byte by byte through string(s[i]). Also: subject, serial number and unique ids are each written into the hashed JSON under a name of their own (an edit of one changes the hash, so the certificate is made again).",
 		"the string type chosen per value, comma/escape parsing for all subject strings, the reversal inside the subject parser, the bytes of the encoded DN.",
-		"PURE", "PROV-SUBJECT", "TAB-RDN", "SCHEMA-TAGS", "TBS-WRITERS", "BITSTRING-LEN", "LINT-TAUTLEN", "FIELD-WRITTEN", "MERGE-COPY", "DECODE-DIRECT", "RDN-VALUE-KIND", "LINT-FILLALL", "LINT-NARROW", "HASH-FIELDS", "LINT-READ"),
+		"PURE", "PROV-SUBJECT", "TAB-RDN", "SCHEMA-TAGS", "TBS-WRITERS", "BITSTRING-LEN", "LINT-TAUTLEN", "FIELD-WRITTEN", "MERGE-COPY", "DECODE-DIRECT", "RDN-VALUE-KIND", "LINT-FILLALL", "LINT-NARROW", "HASH-FIELDS", "LINT-READ", "LINT-RUNEIDX"),
 	P("C04", "constant/layout evaluation, regexp-syntax analysis of the duration pattern, SSA wiring, guard extraction, error-drop analysis",
 		"the date layout constant and location reaching time.ParseInLocation; which capture group feeds which AddDate argument of the single calendar addition; the default lifetime; the from-absent default; From/Until passed in order and converted to UTC; the exact guard under which a profile's validity is inherited; that no parse error of a duration count is dropped; the year range guard. Also: duration counts are parsed in base 10; the hash blanks exactly the run-relative bounds (path table), so an edited explicit bound is noticed. Also: where a profile is named, the configuration that goes on is the result of the merge (the only place a profile's validity is inherited).",
 		"calendar arithmetic itself, time-zone behaviour, the UTCTime/GeneralizedTime choice (library).",
@@ -56,7 +56,7 @@ var properties = []Property{
 	P("C06", "index-preservation analysis of list loops, SSA data flow of the critical flag, provenance of raw values, partial-read lint, schema/struct comparison, field liveness",
 		"that every loop filling a list of extensions stores element i at index i; that the critical flag of every constructor and of raw extensions comes from the configuration; that a !binary value is the standard base64 decoding of everything after the prefix (no single Read, no pattern match); that every configured field is consumed and every schema property has a field; that every extension kind names its own OID. Also: a raw value is handed on as read (an empty value is not turned into nil, which would drop an optional field). Also: the reader of the extension list looks at every field of an entry, takes the non-nil one, refuses a second and refuses none (flag protocol); the common handler answers by raw and content as documented on every path (path table); the OID lookups answer (table entry, true) for every valid index. Also: per profile entry, what the merge emits into the list the certificate carries is what the documented table says on every path of one round (the rule of C08). Also: byte-valued manipulations survive: after they are applied, neither the body builder nor the signing function stores into, or calls a writer of, a manipulable field. Also: two encodings that are compared do not share one buffer (what Bytes() returned is not read after the buffer was reset). Also: the generator builds from the stored effective configuration as it is (no second merge).",
 		"base64 decoding correctness, behaviour for 64 KiB payloads, the merge over lists longer than the unrolling of MERGE-PATHS.",
-		"PROV-EXT", "PROV-CRIT", "PROV-RAW", "LINT-READ", "TAB-EXTOID", "SCHEMA-TAGS", "LIVE-FIELD", "PARSE-EXT", "RAW-TABLE", "FIELD-WRITTEN", "MERGE-COPY", "MERGE-PATHS", "GUARD-PROFILE", "PROV-MANIP", "LINT-LOOPVAR", "LINT-BUFLOOP", "PROV-KEY", "LINT-FILLALL"),
+		"PROV-EXT", "PROV-CRIT", "PROV-RAW", "LINT-READ", "TAB-EXTOID", "SCHEMA-TAGS", "LIVE-FIELD", "PARSE-EXT", "RAW-TABLE", "FIELD-WRITTEN", "MERGE-COPY", "MERGE-PATHS", "GUARD-PROFILE", "PROV-MANIP", "LINT-LOOPVAR", "LINT-BUFLOOP", "PROV-KEY", "LINT-FILLALL", "DECODE-DIRECT"),
 	P("C07", "table evaluation against RFC 5280/6960, ASN.1 shape comparison, wiring table over access-path provenance, dependence, range-check and aliasing lints",
 		"every key-usage bit, extended-key-usage OID, general-name tag, qualifier id, access-method OID and extension OID against the RFCs; the shapes of the marshalled extension structs; that every YAML content field reaches the like-meaning certificate-side field; that key identifiers hash the right bits; that the keyUsage bit length depends on the flags; that parsed IP octets are range-checked; that buffers and slices handed on are not overwritten. Also: every loop that encodes list elements encodes each one and is left early only with an error; no parameter decides whether another one is encoded; the issuer context the authority key identifier hashes from is the one attached before signing. Also: the ocsp-nocheck value is the DER NULL; hand-built SEQUENCEs carry the constructed bit; presence tests of optional content are emptiness tests; an IP address is four octets, each of the whole range 0..255. Also: a list inside a structure marked optional stays nil when nothing is configured (a made, empty list would make encoding/asn1 write the optional structure). Also: the keyUsage bit string has 8n minus trailing-zeros bits for n octets and no octets when no bit is set; a buffer reused across the access descriptions is reset each round; loops that fill a list made per element fill a place every round; no value is stored on the branch where its presence test found it empty; a qualifier pointer is not dereferenced where it was not found non-nil.",
 		"byte-exact encodings ('an independent decoder reads back'). Known finding D10: pathLen 0 cannot be expressed by the encoder.",
@@ -64,15 +64,15 @@ var properties = []Property{
 	P("C08", "purity analysis, error-propagation chains over the module call graph, field-by-field provenance of the merged value; bounded path enumeration of one round of each merge loop with a decision-table comparison (no solver)",
 		"four clauses: per profile entry, what Merge emits and records is what the documented table says on every path of one round (MERGE-PATHS); merging does not write to the profile or configuration it was given; the merged value is a whole copy in which only Validity (under the exact inheritance guard) and Extensions (a fresh list) differ; a content-less extension that remains makes generation fail (the override-needed builder always errs, every Builder/Compile error is returned up to the CLI, every Builder hands the handler's result back). Also: the unmerged configuration is returned only behind a test that no profile is named.",
 		"the merge over lists longer than the unrolling (MERGE-PATHS walks every path through one round of each loop with the inner loops unrolled twice and compares it with the documented decision table; it recognises index lists kept as slices searched by a loop, slices.Contains or a helper, maps and boolean slices - another bookkeeping is reported as undecided).",
-		"PURE", "STATELESS", "ERR-CHAIN-EXT", "MERGE-COPY", "MERGE-PATHS", "LINT-REUSE", "GUARD-PROFILE", "JSON-OMITEMPTY", "LINT-BUFLOOP", "LINT-FILLALL"),
+		"PURE", "STATELESS", "ERR-CHAIN-EXT", "MERGE-COPY", "MERGE-PATHS", "LINT-REUSE", "GUARD-PROFILE", "JSON-OMITEMPTY", "LINT-BUFLOOP", "LINT-FILLALL", "ORDER"),
 	P("C09", "field liveness with branch-condition use, purity analysis, call-graph effect closure, error chain to the exit status; path-table comparison of the table recurrence; global-state effect analysis",
 		"that the optional flag is consulted as a branch condition of the subject validator; that validation does not modify the subject; that a failed validation is an error of planning which the CLI turns into a non-zero exit before generation, and that planning and opening cannot write. Also: validation, merging, hashing, subject parsing and the decision keep no package-level state between calls; the recurrence of the table is checked as a path table (final value of a cell against the formula, for every completion of untested conditions); every RDN built has one attribute, which is what the validator looks at. Also, in the validator: the table rows are computed from the last to the first and all columns of each, the answer is the cell [0][0], an unresolvable attribute name and an empty RDN are rejections, and with allowOther the found-flag is false until an attribute equals the wanted one, a missing mandatory attribute answers false and the end of the search answers true; a successful exit of validate-and-merge lies behind a passed validation or behind the test that no profile is named. Also: with other attributes allowed, the rejection for a missing mandatory attribute is decided inside a loop over the profile's attributes (one decision per attribute, not a tally over the subject). Also: the attribute list's nil-ness, which the validator reads as no list at all, survives every copy of a profile (no append(nil, ...) or unguarded make). Also: no registry keeps the address of a variable that is reassigned in every round of a loop (every profile name would point at the profile read last). Also: a configuration put again is stored again (no shortcut on the hash, which does not see the profile name). Also: a profile read from a file is registered whether or not its name is already known (a second Open enforces the profile now on disk).",
 		"that the validator implements the subsequence rule for all profile x subject pairs: VALIDATE-DP checks that the table recurrence has the documented form, which is a shape rule about today's algorithm, not a proof about all inputs.",
-		"LIVE-FIELD", "PURE", "STATELESS", "ABORT-BEFORE-WRITE", "VALIDATE-DP", "PLAN-CLASSIFY", "TAB-RDN", "GUARD-PROFILE", "MERGE-COPY", "LINT-NILSIG", "LINT-LOOPVAR", "EFFECT-DET", "REGISTRY"),
+		"LIVE-FIELD", "PURE", "STATELESS", "ABORT-BEFORE-WRITE", "VALIDATE-DP", "PLAN-CLASSIFY", "TAB-RDN", "GUARD-PROFILE", "MERGE-COPY", "LINT-NILSIG", "LINT-LOOPVAR", "EFFECT-DET", "REGISTRY", "LINT-READ", "DECODE-DIRECT"),
 	P("C10", "call-graph effect analysis (who may write which file), CFG edge classification of the consent gate, guard DNF of the decision table, provenance of metadata; bounded path enumeration of the planner's round",
 		"who may write which file (only the PEM export under <config path>.pem and PutConfig for unknown aliases; nothing deletes); that generation is reached only without overwrites or after the answer y; necessary conditions of the no-op clause: hash line writer/reader agreement, deterministic hash that forgets alias/profile/run-relative dates, metadata rebuilt from the right files, decision table (a certificate+request entity is not 'missing'), no mutation of the stored configuration while building. Also: the planner's round as a path table (planned iff issuer planned or the decision says so). Also: what a PEM file yields besides an error is kept (a certificate dropped at import would be re-created without the question being asked). Also: the flag that decides whether the question is asked becomes true on every way past a planned replacement. Also: the plan keeps the planner's order (nothing sorts or rearranges a list of changes).",
 		"that two consecutive runs leave every byte identical (run-time behaviour: mtimes, random serials are not regenerated only if nothing is planned).",
-		"EFFECT-WRITE", "GUARD-CONSENT", "TAB-HASHLINE", "HASH-KILL", "EFFECT-DET", "PROV-META", "GUARD-UPDATE", "PURE", "PLAN-CLASSIFY", "VALIDITY-PATHS", "PROV-PLAN", "PLAN-PATHS", "REGISTRY", "EXPORT-PARTS", "HASH-SOURCE", "LINT-REUSE", "TOLERANT", "ORDER", "PROV-VALIDITY"),
+		"EFFECT-WRITE", "GUARD-CONSENT", "TAB-HASHLINE", "HASH-KILL", "EFFECT-DET", "PROV-META", "GUARD-UPDATE", "PURE", "PLAN-CLASSIFY", "VALIDITY-PATHS", "PROV-PLAN", "PLAN-PATHS", "REGISTRY", "EXPORT-PARTS", "HASH-SOURCE", "LINT-REUSE", "TOLERANT", "ORDER", "PROV-VALIDITY", "ABORT-BEFORE-WRITE"),
 	P("C11", "guard DNF extraction with truth-table comparison against the frozen decision table, provenance of propagation keys, flag table evaluation; bounded path enumeration of the planner's round with a decision-table comparison",
 		"that each of the six regeneration reasons returns true under exactly its table condition with metadata/artifacts fetched for the right aliases, and every other exit returns false; that a planned entity's alias is recorded before its change is appended and looked up by the subject's Issuer; that the work list visits issuers before subjects; the CLI flag/bit/default table; where the timestamps and stored hash come from. Also: the planner's round as a path table; a PEM with trailing bytes keeps its decoded parts (no false 'missing'); the build time is recorded for every readable artifact, whatever it contains. Also: a failed fetch ends the decision with false and no reason lies behind a test only a failure passes; every kind the planner assigns passes the filter of the generation loop; the work list is read from index 0 in steps of one while the index is below its length, seeded with all roots, and subscribers are appended. Also: the generation step sits in exactly one loop of BulkUpdate, so the plan is carried out in one pass in the planner's order. Also: a key that could not be read is a nil interface, not a typed nil pointer, so it counts as missing; the CLI gives up before planning on account of the flags only when none is set. Also: a failed build ends the generation loop (a subject is not generated behind an issuer that failed).",
 		"the 'if and only if' over the product space as executed (time comparisons, map contents at run time).",
@@ -108,7 +108,7 @@ var properties = []Property{
 	P("C20", "call-graph reachability of explicit panics with per-site discharge rules, bug-pattern lints with fixture controls, error-drop analysis",
 		"that every explicit panic reachable from the entry points is discharged by a checked invariant (constant in-range arguments, algorithm table rows, configurator result types, OID validation at parse time, year range); that six bug patterns are absent (relative index misuse, unchecked Index result, nil part dereference, single-result type assertion, unchecked narrowing, use after close); that no error is dropped; that schema enum values without a case reach an error. Also: a value answered as (nil, nil) is tested against nil before a method is called on it, also after it went through a struct field or a list handed to another function; every test of an error against nil is the right way round (a nil error is not reported as a failure, the results of a failed call are not used). No pointer is dereferenced where it is known to be nil or may still be nil after a join; constant indexes lie inside constant or tested lengths; an array filled from a list has the tested length of the list. A slice offset computed as len(buffer) - len(source) lies behind a test that the source is not longer. Every loop left through its condition changes something the condition reads (no hang on a file's content). A command reads args[i] only below the count its validator guarantees; a field tested against nil is dereferenced only where a test excluded nil; a number parsed as unsigned 64-bit is range-tested before it becomes a signed one. A helper handed both results of a call dereferences the value only where the error is nil. A pointer field that is nil when the document leaves the key out is dereferenced only behind a test that found it not nil; an error test decides something (no empty failure branch).",
 		"panics inside libraries, arbitrary index/nil safety (no abstract interpreter for integers/slices is available): this is pattern checking, not a proof of panic freedom.",
-		"PANIC-INV", "OID-VALID", "YEAR-RANGE", "LINT-RELIDX", "LINT-IDXNEG", "LINT-NILPART", "LINT-TYPEASSERT", "LINT-NARROW", "LINT-READ", "LINT-USEAFTERCLOSE", "ERR-DROP", "SCHEMA-ENUM", "LINT-TYPEDNIL", "LINT-NILRESULT", "ERR-POLARITY", "LINT-NILDEREF", "LINT-CONSTIDX", "LINT-NILPHI", "SCHEMA-VERSION", "LINT-ARRFILL", "LINT-DEADVALUE", "LINT-CONSTSLICE", "LINT-PADCOPY", "LINT-LOOPINV", "LINT-CLIARGS", "LINT-NILCHECKED", "LINT-LOOPVAR", "LINT-PANICOPS"),
+		"PANIC-INV", "OID-VALID", "YEAR-RANGE", "LINT-RELIDX", "LINT-IDXNEG", "LINT-NILPART", "LINT-TYPEASSERT", "LINT-NARROW", "LINT-READ", "LINT-USEAFTERCLOSE", "ERR-DROP", "SCHEMA-ENUM", "LINT-TYPEDNIL", "LINT-NILRESULT", "ERR-POLARITY", "LINT-NILDEREF", "LINT-CONSTIDX", "LINT-NILPHI", "SCHEMA-VERSION", "LINT-ARRFILL", "LINT-DEADVALUE", "LINT-CONSTSLICE", "LINT-PADCOPY", "LINT-LOOPINV", "LINT-CLIARGS", "LINT-NILCHECKED", "LINT-LOOPVAR", "LINT-PANICOPS", "LINT-RUNEIDX"),
 }
 
 var notApplicable = map[string]string{
